@@ -78,7 +78,11 @@ impl Drop for HGuard {
 }
 
 pub fn build_api(sp: &ServerPlan) -> ApiDescription<SimCtx> {
-    let mut api = ApiDescription::new();
+    let mut api = match sp.api {
+        // the Echo APIs start from the trait-declared endpoints
+        ApiKind::Echo | ApiKind::EchoVersioned | ApiKind::All => echo::trait_api(),
+        _ => ApiDescription::new(),
+    };
     match sp.api {
         ApiKind::Work => work::register(&mut api),
         ApiKind::Echo => {
